@@ -79,6 +79,10 @@ def _run_one(m, base):
                 return m, "WRONG-SITE", "fired but report does not mention %r\n%s" % (want, out[-600:])
             return m, "ok", ""
         else:
+            if r.returncode == 2 and m.get("undecided_ok") and "VIOLATION" not in out:
+                # a recorded case in which the rules do not understand the refactored shape: the check says so (ANALYSIS-ERROR) and does
+                # not claim a violation; it is listed as such in DESIGN.md 11.4 and must never turn into an alarm
+                return m, "undecided", out[-300:]
             if r.returncode != 0:
                 return m, "FALSE-ALARM", "exit %d, expected 0\n%s" % (r.returncode, out[-800:])
             return m, "ok", ""
@@ -111,8 +115,10 @@ def seeded_mutants(prop):
             except OSError:
                 continue
             if meta.get("property") == prop or (touched & anchor_files(prop)):
+                known_undecided = (meta.get("checks_not_silent", {}).get(prop) or {}).get("exit") == 2
                 out.append(dict(id="refactor-" + d, prop=prop, expect="silent", rule=None, note="independent behaviour-preserving refactoring " + d,
-                                patch=os.path.join(base, d, "patch.diff"), file=None, find=None, replace=None, mentions=None, edits=None))
+                                patch=os.path.join(base, d, "patch.diff"), file=None, find=None, replace=None, mentions=None, edits=None,
+                                undecided_ok=known_undecided))
             continue
         if meta.get("property") == prop and meta.get("caught_by_own_property_check"):
             rules = (meta.get("checks_that_fire", {}).get(prop, {}) or {}).get("rules") or [None]
@@ -138,13 +144,14 @@ def run_for(prop, ctx, jobs=16):
     finally:
         shutil.rmtree(base, ignore_errors=True)
     stale = [r for r in results if r[1] == "stale"]
-    bad = [r for r in results if r[1] not in ("ok", "stale")]
+    bad = [r for r in results if r[1] not in ("ok", "stale", "undecided")]
     ctx.extra["selftest"] = {
         "variants": len(results),
         "must_fire": len([m for m in ms if m["expect"] == "fire"]),
         "must_stay_silent": len([m for m in ms if m["expect"] == "silent"]),
         "ok": len([r for r in results if r[1] == "ok"]),
         "stale": [r[0]["id"] for r in stale],
+        "undecided": [r[0]["id"] for r in results if r[1] == "undecided"],
         "failed": [{"id": r[0]["id"], "verdict": r[1], "detail": r[2][-400:]} for r in bad],
         "list": [{"id": r[0]["id"], "expect": r[0]["expect"], "rule": r[0].get("rule"), "verdict": r[1],
                   "what": r[0].get("note", "")} for r in results],
